@@ -13,22 +13,26 @@ MODES = ("none", "zod")
 BATCH = 100
 
 
-def generate_types(tier, seed, d):
+def generate_types(tier, seed, d, cfg=None, simulate=True, keyf=None):
     """-> list of abstract type ASTs (dicts), exhaustive part first, then simulated deep samples."""
-    cfg = "Gen_Types_d3" if tier == "thorough" else "Gen_Types_d2"
+    if cfg is None:
+        cfg = "Gen_Types_d3" if tier == "thorough" else "Gen_Types_d2"
     g = C.run_tlc("Gen_Types", cfg, workers=4, timeout=1800, heap="8g")
     exhaustive = g.json_lines("REPLAY")
     if len(exhaustive) < 1000:
         raise C.ToolError("Gen_Types produced %d cases\n%s" % (len(exhaustive), g.out[-2000:]))
     num = 60 if tier == "quick" else 400
     depth = 5 if tier == "quick" else 6
-    s = C.run_tlc("Gen_Types", "Gen_Types_sim", workers=1, timeout=600,
-                  simulate="num=%d" % num, extra=["-depth", str(depth), "-seed", str(seed)])
-    sampled = s.json_lines("REPLAY")
+    sampled = []
+    s = None
+    if simulate:
+        s = C.run_tlc("Gen_Types", "Gen_Types_sim", workers=1, timeout=600,
+                      simulate="num=%d" % num, extra=["-depth", str(depth), "-seed", str(seed)])
+        sampled = s.json_lines("REPLAY")
     seen = set()
     out = []
     for t in exhaustive + sampled:
-        key = rustgen.canon(t)
+        key = keyf(t) if keyf else rustgen.canon(t)
         if key in seen:
             continue
         seen.add(key)
@@ -85,10 +89,11 @@ def _observe_case(b, idx, site, mode):
     raise ValueError(site)
 
 
-def run_batch(d, bi, cases, mode, extra_cfg=None, keep=False):
+def run_batch(d, bi, cases, mode, extra_cfg=None, keep=False, extra_src=""):
     """cases: [(idx, named_ast)] -> (Bindings or None, RunResult, texts, spellings)"""
     root = os.path.join(d, "b%d-%s" % (bi, mode))
     src, spellings = rustgen.types_project(cases)
+    src += extra_src
     files = {"src/lib.rs": src}
     config = None
     if extra_cfg:
@@ -106,7 +111,31 @@ def run_batch(d, bi, cases, mode, extra_cfg=None, keep=False):
     return b, res, texts, spellings
 
 
-def observe_types(d, types, extra_cfg=None, sites=SITES, modes=MODES, progress=None):
+def referenced_names(ast):
+    """every type/schema name an observed AST refers to"""
+    out = set()
+
+    def go(x):
+        if isinstance(x, list):
+            for y in x:
+                go(y)
+        elif isinstance(x, dict):
+            k = x.get("k")
+            if k == "ref":
+                out.add(x["n"])
+            elif k == "schemaref":
+                out.add(x["n"])
+                if x.get("alias"):
+                    out.add(x["alias"])
+            elif k == "typeof":
+                out.add(x["n"])
+            for v in x.values():
+                go(v)
+    go(ast)
+    return sorted(out)
+
+
+def observe_types(d, types, extra_cfg=None, sites=SITES, modes=MODES, progress=None, extra_src=""):
     """Run all types through the real generator.
     Yields dicts: {idx, site, mode, lang, ts, zod, rust(named ast), key, spelling, run_status}"""
     named = []
@@ -130,7 +159,8 @@ def observe_types(d, types, extra_cfg=None, sites=SITES, modes=MODES, progress=N
         while stack:
             cs = stack.pop()
             sub += 1
-            b, res, texts, spellings = run_batch(d, bi * 1000 + sub, cs, mode, extra_cfg)
+            b, res, texts, spellings = run_batch(d, bi * 1000 + sub, cs, mode, extra_cfg, extra_src=extra_src)
+            declared = sorted(b.types.by_name.keys()) if (b is not None and b.types) else []
             runs[0] += 1
             if b is None and len(cs) > 1:
                 mid = len(cs) // 2
@@ -147,7 +177,8 @@ def observe_types(d, types, extra_cfg=None, sites=SITES, modes=MODES, progress=N
                         lang, ts, zod = _observe_case(b, idx, site, mode)
                     out.append({"idx": idx, "site": site, "mode": mode, "lang": lang, "ts": ts, "zod": zod,
                                 "rust": ast, "key": rustgen.canon(types[idx]),
-                                "spelling": spellings[idx][site], "run_status": res.status})
+                                "spelling": spellings[idx][site], "run_status": res.status,
+                                "declared": declared})
         return out
 
     with ThreadPoolExecutor(max_workers=min(12, C.NCPU)) as ex:
